@@ -4,31 +4,45 @@
            J|<json hex>|<bin hex or X>  JSON keyset (bin = the same message in binary, X = not parseable)
            M|<bin hex>|<nil injections> proto-message API (nil keyset / nil key / nil key data)
            E|<kek>|<ad>|<hex>           encrypted keyset, AES-GCM key-encryption key *)
-let curve_name c = match int_of_n c with 2 -> "p256" | 3 -> "p384" | 4 -> "p521" | _ -> "p256"
+let curve_name c = match int_of_n c with 2 -> "p256" | 3 -> "p384" | 4 -> "p521" | 5 -> "x25519" | _ -> failwith "curve"
 let rec take_l k l = if k = 0 then [] else match l with [] -> [] | x :: t -> x :: take_l (k - 1) t
 let rec drop_l k l = if k = 0 then l else match l with [] -> [] | _ :: t -> drop_l (k - 1) t
-let ec_point_ok (c : n) (pt : n list) : bool =
-  let len = List.length pt in
-  if len < 3 || len mod 2 = 0 then false else
-  let cs = (len - 1) / 2 in
-  let x = take_l cs (drop_l 1 pt) and y = drop_l (1 + cs) pt in
-  (match ocall "ec_oncurve" [curve_name c] [x; y] with [b] -> int_of_n b = 1 | _ -> false)
-let ec_pub_of_priv (c : n) (d : n list) : n list option =
-  if d = [] then None else ocall_opt "ecdh_pub" [curve_name c] [d]
+let hash_name h = match int_of_n h with 1 -> "sha1" | 2 -> "sha384" | 3 -> "sha256" | 4 -> "sha512" | 5 -> "sha224" | _ -> failwith "hash"
+(* the standard library, answered by the stdlib oracle *)
+let std : stdlib = {
+  ec_point_ok = (fun c pt -> oracle (String.concat " " ["c14_ecdh_point"; curve_name c; hexs pt]) = "01");
+  ec_pub_of_priv = (fun c d ->
+    let r = oracle (String.concat " " ["c14_ecdh_pub"; curve_name c; hexs d]) in
+    if r = "ERR" then None else Some (unhex r));
+  ed25519_pub = (fun seed -> ocall "ed25519_pub" [] [seed]);
+  mlkem_pub = (fun k seed ->
+    let r = oracle ((if int_of_n k = 768 then "mlkem768_pub " else "mlkem1024_pub ") ^ hexs seed) in
+    if r = "ERR" then None else Some (unhex r));
+  shake256 = (fun m n -> unhex (oracle (Printf.sprintf "shake256 %s %d" (hexs m) (int_of_nat n))));
+  rsa_crt = (fun n e d p q ->
+    let r = oracle (String.concat " " ["c14_rsa_crt"; hexs n; dec_of_n e; hexs d; hexs p; hexs q]) in
+    if r = "ERR" then None else
+    (match String.split_on_char ',' r with
+     | [a; b; c] -> Some ((unhex a, unhex b), unhex c)
+     | _ -> failwith "c14_rsa_crt"));
+  rsa_selfcheck = (fun pss h salt n e d p q ->
+    oracle (String.concat " " ["c14_rsa_selfcheck"; (if pss then "pss" else "pkcs1"); hash_name h; dec_of_n salt;
+                               hexs n; dec_of_n e; hexs d; hexs p; hexs q]) = "01");
+}
 
 let st_str s = match int_of_n s with 1 -> "E" | 2 -> "D" | 3 -> "X" | _ -> "?"
 let shape (h : entry list) : string =
   "h[" ^ String.concat "," (List.map (fun e ->
     let p = if not e.emod then "~" else
-      (match prim_ok e.ekey with Ok true -> "+" | Ok false -> "-" | _ -> "!") in
+      (match prim_ok std e.ekey with Ok true -> "+" | Ok false -> "-" | _ -> "!") in
     Printf.sprintf "%s.%s.%s.%s.%d.%s" (dec_of_n e.eid) (st_str e.estatus) (if e.eprim then "1" else "0")
-      (match e.ereq with None -> "R" | Some r -> dec_of_n r) (int_of_n (out_prefix e)) p) h) ^ "]"
+      (match shown_req e with None -> "R" | Some r -> dec_of_n r) (int_of_n (shown_prefix e)) p) h) ^ "]"
 let out = function Ok h -> shape h | Err -> "err" | Panic -> "PANIC-MODEL"
 
 let both_bin (b : n list) : string =
   match decode_keyset b with
   | Some ks when any_unmodelled ks -> "U"
-  | _ -> "c:" ^ out (read ec_point_ok ec_pub_of_priv b) ^ "|n:" ^ out (read_no_secrets ec_point_ok ec_pub_of_priv b)
+  | _ -> "c:" ^ out (read std b) ^ "|n:" ^ out (read_no_secrets std b)
 
 let inject (ks : keyset option) (inj : string) : keyset option =
   List.fold_left (fun ks i ->
@@ -55,7 +69,7 @@ let handle line =
      | Some ks when any_unmodelled ks -> "U"
      | Some ks ->
        let ks' = inject (Some ks) inj in
-       "c:" ^ out (read_proto ec_point_ok ec_pub_of_priv ks') ^ "|n:" ^ out (handle_no_secrets ec_point_ok ec_pub_of_priv ks'))
+       "c:" ^ out (read_proto std ks') ^ "|n:" ^ out (handle_no_secrets std ks'))
   | ["E"; kek; ad; enc; _] ->
     let kek = unhex kek in
     let dec (ct : n list) (ad : n list) : n list option =
@@ -67,5 +81,5 @@ let handle line =
       | Some ct -> (match dec ct ad with
         | None -> false
         | Some pt -> (match decode_keyset pt with Some ks -> any_unmodelled ks | None -> false))) in
-    if unm then "U" else "e:" ^ out (read_encrypted ec_point_ok ec_pub_of_priv dec enc ad)
+    if unm then "U" else "e:" ^ out (read_encrypted std dec enc ad)
   | _ -> failwith "case"
